@@ -32,7 +32,8 @@ EXTENDS Integers, Sequences, FiniteSets, SequencesExt, TLC
 CONSTANTS Ids, Consumers, Topics, MaxTime, Dues, Ttls, ConsCfg, MaxTag
 (* switches: the pinned code, or a variant (TLC shows what each one buys)                           *)
 ExpiryAtHandover == FALSE   \* TRUE: consume() re-checks the time-to-live when it hands a message over
-AtomicRequeue == FALSE      \* TRUE: requeue() publishes before it acknowledges (no gap without the message)
+AtomicRequeue == FALSE      \* TRUE: requeue() replaces the message in one step (no gap without the message)
+WithCancel == FALSE         \* TRUE: callers can be cancelled between the two round trips of requeue()
 
 NoTime == 0
 VARIABLES now, qn, qd, qx, unacked, cbs, tagmap, delivd, local, cons, ntag, meta, st,
@@ -204,6 +205,13 @@ RequeuePublish(i) ==
     /\ ret' = [ret EXCEPT ![i] = TRUE]
     /\ hist' = <<"requeue_publish", i>>
     /\ UNCHANGED <<now, qx, unacked, cbs, tagmap, delivd, local, cons, ntag, st, pend, deliv, orig>>
+(* the caller of requeue() is cancelled between the two round trips (a worker forced to stop while it re-queues a retry): *)
+(* the old delivery is acknowledged, the new message is never published -- finding rabbit-requeue-gap                      *)
+CancelInTransit(i) ==
+    /\ WithCancel /\ transit[i]
+    /\ transit' = [transit EXCEPT ![i] = FALSE] /\ heldc' = [heldc EXCEPT ![i] = 0]
+    /\ hist' = <<"requeue_cancelled", i>>
+    /\ UNCHANGED <<now, qn, qd, qx, unacked, cbs, tagmap, delivd, local, cons, ntag, meta, st, pend, deliv, orig, ret, norder>>
 (* (variant) both in one step *)
 RequeueAtomic(c, i, due, ttl) ==
     /\ AtomicRequeue /\ Mine(c, i) /\ ~HeadExpired
@@ -250,7 +258,7 @@ Next == \/ Tick \/ ServerExpire
         \/ \E i \in Ids, t \in Topics, due \in Dues, ttl \in Ttls : Enqueue(i, t, due, ttl)
         \/ \E c \in Consumers, i \in Ids : Ack(c, i) \/ Nack(c, i) \/ Reject(c, i)
               \/ \E due \in Dues, ttl \in Ttls : RequeueAck(c, i, due, ttl) \/ RequeueAtomic(c, i, due, ttl)
-        \/ \E i \in Ids : RequeuePublish(i)
+        \/ \E i \in Ids : RequeuePublish(i) \/ CancelInTransit(i)
 Spec == Init /\ [][Next]_vars
 
 -----------------------------------------------------------------------------
